@@ -38,7 +38,7 @@ ASSUMPTIONS = [
 REQUIRED = {"expand.count_and_order": {"quick": 1500, "thorough": 100000}, "expand.row_scenario": {"quick": 3000, "thorough": 200000},
             "expand.template_unchanged": {"quick": 1500, "thorough": 100000}, "expand.rows_independent": {"quick": 800, "thorough": 50000},
             "modify.rebuilt": {"quick": 800, "thorough": 50000}, "builder.count": {"quick": 1500, "thorough": 100000}}
-REQUIRED_SEEN = {"entry_point": ["parse_scenario", "parse_feature", "model_visitor_with_modifying_callback"], "row_value_class": ["all_cells_dashes"], "modification_history": ["remove_column_then_add_column"], "added_column": ["one_the_template_refers_to"], "special_placeholder_in": ["step_text"], "first_access_to_the_expansion": ["attribute", "iteration"], "background_steps_shape": ["mixed", "all_with_placeholder", "none_with_placeholder", "placeholder_step_with_doc_string"], "outline_place": ["in_rule", "in_feature"], "examples_shape": ["section_without_table_before_rows"], "tag_placeholder_column": ["name_with_punctuation"], "schema": 9, "schema_given_by": ["configuration_parameter", "outline_attribute"], "modification": ["add_row", "add_row_object", "add_column", "remove_column"]}
+REQUIRED_SEEN = {"entry_point": ["parse_scenario", "parse_feature", "model_visitor_with_modifying_callback"], "row_value_class": ["all_cells_dashes"], "placeholder_layout": ["same_placeholder_adjacent_in_a_doc_string"], "modification_history": ["remove_column_then_add_column"], "added_column": ["one_the_template_refers_to"], "special_placeholder_in": ["step_text"], "first_access_to_the_expansion": ["attribute", "iteration"], "background_steps_shape": ["mixed", "all_with_placeholder", "none_with_placeholder", "placeholder_step_with_doc_string"], "outline_place": ["in_rule", "in_feature"], "examples_shape": ["section_without_table_before_rows"], "tag_placeholder_column": ["name_with_punctuation"], "schema": 9, "schema_given_by": ["configuration_parameter", "outline_attribute"], "modification": ["add_row", "add_row_object", "add_column", "remove_column"]}
 NSHARDS = {"quick": 16, "thorough": 16}
 
 
@@ -67,6 +67,7 @@ def gen_outline(rng):
             parts.append(rng.choice(["and", "is", "ünï", "col", ":", "-"]))
         return " ".join(parts).strip()
     steps = []
+    adjacent = [False]
     special_in_step = [False]
     for i in range(rng.randint(1, 3)):
         st = {"kw": rng.choice(["Given", "When", "Then", "*"]) if i == 0 else rng.choice(["Given", "When", "Then", "And", "But", "*"]),
@@ -78,6 +79,11 @@ def gen_outline(rng):
         r = rng.random()
         if r < 0.3:
             st["doc"] = "\n".join(text(3) for _ in range(rng.randint(1, 3)))
+            if rng.random() < 0.35:
+                # the same placeholder twice with nothing in between (a padding idiom: <pad><pad>), also three times
+                c_ = rng.choice(cols)
+                st["doc"] += "\n" + rng.choice(["<%s><%s>", "x<%s><%s><%s>y", "<%s><%s> tail"]).replace("%s", c_)
+                adjacent[0] = True
             st["doc_quote"] = rng.choice(['"""', "'''"])
         elif r < 0.6:
             nc = rng.randint(1, 3)
@@ -121,7 +127,7 @@ def gen_outline(rng):
                                              # a section title is everything behind "Examples:" -- colons included
                                              "Weekdays 08:00 - 18:30", "Ratio 1:2: weekend %d" % ei, "Trailing colon:"]),
                          "header": order, "rows": rows})
-    outline = {"kind": "outline", "dash_row": dash_row[0], "special_in_step": special_in_step[0], "tags": tags, "name": "O " + text(2), "desc": ["%% description <%s>" % cols[0]] if rng.random() < 0.3 else [],
+    outline = {"kind": "outline", "adjacent_placeholders": adjacent[0], "dash_row": dash_row[0], "special_in_step": special_in_step[0], "tags": tags, "name": "O " + text(2), "desc": ["%% description <%s>" % cols[0]] if rng.random() < 0.3 else [],
                "steps": steps, "examples": examples}
     before = [{"kind": "scenario", "tags": [], "name": "before", "desc": [], "steps": [{"kw": "Given", "text": "a step"}]}] if rng.random() < 0.5 else []
     background = None
@@ -294,6 +300,8 @@ def one_case(mon, rng, sample=False):
         mon.seen("tag_placeholder_column", "name_with_punctuation")
     if outline_abs.get("dash_row"):
         mon.seen("row_value_class", "all_cells_dashes")
+    if outline_abs.get("adjacent_placeholders"):
+        mon.seen("placeholder_layout", "same_placeholder_adjacent_in_a_doc_string")
     if outline_abs.get("special_in_step"):
         mon.seen("special_placeholder_in", "step_text")
     nph = sum(1 for st in outline_abs["steps"] if "<" in st["text"]) + sum(1 for t in outline_abs["tags"] if "<" in t)
